@@ -159,8 +159,8 @@ NormL(v, bits, always) ==
 (* inb: the expression stands where the parser skips newlines (inside parentheses, brackets, braces, a paren call's
    argument list, an if/elif condition, a case scrutinee); statements switch it off again.
    top: the expression is parsed by `expression` itself (lowest precedence level) or is the LEFTMOST part of such an
-   expression (left operand, base of a postfix form, callee): only there does the parser accept a prime after something
-   that is not a name chain, i.e. `(e)' a, b` (the token `'` has precedence No). *)
+   expression (left operand, base of a postfix form, callee): until /repo 16aa173 only there did the parser accept a prime after something
+   that is not a name chain, i.e. `(e)' a, b` (the token `'` had precedence No); it now has the precedence of a call. *)
 RECURSIVE RE(_, _, _, _, _, _, _, _)
 RECURSIVE RK(_, _, _, _, _, _)
 RECURSIVE RS(_, _, _)
@@ -226,7 +226,9 @@ RK(e, p, fol, inb, top, pf) ==
                want == Get(pf, "c@" \o p)
                \* a callee that is not a bare name chain (it needs parentheses or is given some) takes a prime only at the top level
                parenCallee == NeedBase(e.f) \/ ParenPref(e.f, p \o ".f", FALSE, pf) > 0
-               primeCallee == ~parenCallee \/ top
+               \* since /repo 16aa173 (`'` has the precedence of a call) every callee takes a prime wherever it stands;
+               \* before, one that is not a bare name chain did so only at the top level: ~parenCallee \/ top
+               primeCallee == TRUE
                c == IF want = 1 /\ primeCallee /\ PrimeOk(n, fol) THEN 1
                     ELSE IF want = 2 /\ n >= 1 /\ ArrowArgs(e) /\ ArrowOk(fol) THEN 2
                     ELSE IF want = 3 /\ n >= 1 /\ ArrowArgs(e) /\ ArrowOk(fol) /\ PrimeOk(n - 1, fol) THEN 3
@@ -436,7 +438,7 @@ IntToks == {Str(i) : i \in 0..9}
 IntOf(s) == CHOOSE i \in 0..9 : Str(i) = s
 Tok(toks, i) == IF i <= Len(toks) THEN toks[i] ELSE "<eof>"
 
-PrecOf(tok) == CASE tok \in {"[", ".", "("} -> 7
+PrecOf(tok) == CASE tok \in {"[", ".", "(", "'"} -> 7     \* the prime has the precedence of a call (/repo 16aa173)
                  [] tok \in {"*", "/"} -> 6
                  [] tok \in {"+", "-"} -> 5
                  [] tok \in {"==", "!=", "<", "<=", ">", ">="} -> 4
